@@ -2,7 +2,9 @@ SPECIFICATION MCSpec
 CONSTANTS
   Me = "n1"
   Peers_ = {"n2", "n3", "n4"}
+  Later_ = {}
   Foreign_ = {"x9"}
+  Rewrites_ = {}
   Quorum = 3
   MyPrio = 100
   QuorumTooLow = FALSE
